@@ -94,6 +94,7 @@ def fi_ops(shape):
         ops += [["algos", R, {"weights": {"f": 0.5, "c": 0.25}, "notional_value": 32.0}, "Rebalance"]]
         ops += [["algos", R, {"weights": {"c": -0.5, "e": 0.25}, "notional_value": 16.0}, "Rebalance"]]
         ops += [["algos", R, {"weights": {"f": 0.5, "c": 0.5}}, "Rebalance"]]
+        ops += [["algos", R, {"weights": {"f": 0.5}, "notional_value": 16.0}, "Rebalance"]]
         ops += [["stransact", R, 8.0]]
     elif shape == "F2":
         for c, q in (("f", 8.0), ("f", -4.0), ("c", 8.0), ("c", -12.0)):
